@@ -145,6 +145,20 @@ static Scn joinkd() {
         barrier(); if (id == 0) { G->wait_for_all(); TR.emit("{\"e\":\"WaitRet\",\"live\":0,\"lossless\":0}"); TR.emit("{\"e\":\"Tuples\",\"n\":3,\"a\":4,\"b\":5,\"cnt\":2}"); release_helpers(); } else help(id);
     }, nullptr};
 }
+// as joinkd, but the duplicate is a DIFFERENT message with the same key (31 after 11): the put of 31 is refused, so 31 must not appear in any tuple and the accepted
+// message 11 must be the one that is matched with 21
+static Scn joinkd2() {
+    return {3, [](int id) {
+        static join_node<T2, key_matching<int>>* JK; static function_node<T2, int>* SK; static std::atomic<int> fed;
+        if (id == 0) { G = new graph; node(3, "join"); node(4, "port"); node(5, "port"); node(6, "fn", 1); vh::rawstore(fed, 0);
+            SK = new function_node<T2, int>(*G, serial, [](const T2& t) { TR.emit("{\"e\":\"TupK\",\"n\":3,\"a\":4,\"b\":5,\"x\":%d,\"y\":%d}", std::get<0>(t), std::get<1>(t)); return 0; });
+            JK = new join_node<T2, key_matching<int>>(*G, [](int v) { return v % 10; }, [](int v) { return v % 10; }); make_edge(*JK, *SK); publish(); }
+        await_graph();
+        if (id == 1) { msg(11, -1, 1); put(input_port<0>(*JK), 4, 11, 11); cosched::yield_point(); msg(31, -1, 1); put(input_port<0>(*JK), 4, 31, 31); fed.store(1); }
+        if (id == 2) { while (!fed.load()) cosched::yield_point(); msg(21, -1, 1); put(input_port<1>(*JK), 5, 21, 21); }
+        barrier(); if (id == 0) { G->wait_for_all(); TR.emit("{\"e\":\"WaitRet\",\"live\":0,\"lossless\":0}"); TR.emit("{\"e\":\"Tuples\",\"n\":3,\"a\":4,\"b\":5,\"cnt\":1}"); release_helpers(); } else help(id);
+    }, nullptr};
+}
 // ---- C14: exception / cancellation: no body starts afterwards until the graph is reset
 struct Boom {};
 static Scn cancel() {
@@ -323,7 +337,7 @@ static Scn make(const std::string& s) {
     if (s == "twolim") return twolim();
     if (s == "prio") return prio(); if (s == "reserve") return reserve(); if (s == "reserve2") return reserve2(); if (s == "ow") return owr(false); if (s == "wo") return owr(true); if (s == "split") return route(false); if (s == "indexer") return route(true);
     if (s == "input") return inputn(); if (s == "async") return asyncn(); if (s == "limitc1") return limitc(1); if (s == "limitc2") return limitc(2);
-    if (s == "joinkd") return joinkd();
+    if (s == "joinkd") return joinkd(); if (s == "joinkd2") return joinkd2();
     if (s == "mfn") return mfn(false); if (s == "mfnR") return mfn(true);
     if (s == "chain0") return chain(0); if (s == "chain1") return chain(1); if (s == "chainR") return chain(2); if (s == "fan") return fan(); if (s == "fifo") return fifo();
     if (s.rfind("seq", 0) == 0) return seqr((unsigned)atoi(s.c_str() + 3)); if (s == "limit1") return limit(1); if (s == "limit2") return limit(2);
